@@ -151,3 +151,47 @@ def _alias3_planted(a1: int, b1: int, a2: int, b2: int, x0: int, g0: int, g1: in
         return alias_run([0, 0, a1, b1, a2, b2], x0, g0, g1, 3, 0)
     finally:
         core.add_outgrads = real
+
+
+# ---- container-valued cotangents (TupleVSpace over Q leaves): the same fold, dense contributions only ----------
+
+
+def fold_tuples(vals, alias):
+    """vals: list of (a, b); every contribution is the tuple (Q(a), Q(b)); alias[i] = j < i reuses tuple object j"""
+    del MUT_LOG[:]
+    n = len(vals)
+    objs = []
+    for i in range(n):
+        j = alias[i]
+        objs.append(objs[j] if 0 <= j < i else (Q(vals[i][0]), Q(vals[i][1])))
+    leaf_ids = {id(q) for t in objs for q in t}
+    before = [(t[0].v, t[1].v) for t in objs]
+    acc = None
+    for o in objs:
+        acc = add_outgrads(acc, o)
+    res = acc[0]
+    for t_ in MUT_LOG:
+        if t_ in leaf_ids:
+            return False  # a leaf of a contribution was accumulated into in place
+    for i in range(n):
+        if (objs[i][0].v, objs[i][1].v) != before[i]:
+            return False
+    if not (isinstance(res, tuple) and len(res) == 2):
+        return False  # the sum of tuples of length 2 is a tuple of length 2 (element-wise), not a concatenation
+    return res[0].v == sum(objs[i][0].v for i in range(n)) and res[1].v == sum(objs[i][1].v for i in range(n))
+
+
+def _foldt3(a0: int, b0: int, a1: int, b1: int, a2: int, b2: int, l1: int, l2: int) -> bool:
+    """
+    pre: -1 <= l1 <= 0 and -1 <= l2 <= 1
+    post: _
+    """
+    return fold_tuples([(a0, b0), (a1, b1), (a2, b2)], [-1, l1, l2])
+
+
+def _foldt4(a0: int, b0: int, a1: int, b1: int, a2: int, b2: int, a3: int, b3: int, l1: int, l2: int, l3: int) -> bool:
+    """
+    pre: -1 <= l1 <= 0 and -1 <= l2 <= 1 and -1 <= l3 <= 2
+    post: _
+    """
+    return fold_tuples([(a0, b0), (a1, b1), (a2, b2), (a3, b3)], [-1, l1, l2, l3])
